@@ -64,6 +64,7 @@ def crash_kind(a):
     k = a["crash"][0]
     m = re.search(r"AddressSanitizer: ([\w-]+)", a["raw"])
     if m: k = m.group(1)
+    if k in ("fault-sig14", "timeout"): return "non-termination"      # the driver's watchdog (or the rig's timeout): the call did not return
     if "overflow" in k or "underflow" in k or k.startswith("fault-sig") or k in ("SEGV", "use-after-poison", "heap-use-after-free",
                                                                             "stack-use-after-return", "stack-use-after-scope"):
         return "out-of-bounds"
@@ -90,26 +91,31 @@ class Agg:
 class Runner:
     """feeds cases to the driver in chunks; a (op, fam, cap)-combination that already crashed `limit` times is not
     run again (the crash is reported once per key; every skipped case is counted in the evidence)"""
+    HANG_BUDGET = 12    # deaths by the driver's watchdog (the call did not return) per build; every one is reported, the cases behind the last are not run
     def __init__(self, ctx, exe, limit=3):
         self.ctx = ctx; self.exe = exe; self.limit = limit
-        self.crashes = collections.Counter(); self.skipped = 0
+        self.crashes = collections.Counter(); self.skipped = 0; self.hangs = 0
     def run(self, items, handle, chunk=20000):
         """items: iterable of (line, combo, meta); handle(line, meta, answer_or_crashdict)"""
         it = iter(items)
         while True:
             block = list(itertools.islice(it, chunk))
             if not block: return
+            if self.hangs >= self.HANG_BUDGET:      # a function that never returns: bounded time, the remaining cases are not run
+                self.skipped += len(block); continue
             part = [x for x in block if x[1] is None or self.crashes[x[1]] < self.limit]
             self.skipped += len(block) - len(part)
             if not part: continue
             try:
-                res = common.batch_run(self.exe, [p[0] for p in part], timeout=600, env=ASAN_ENV)
+                res = common.batch_run(self.exe, [p[0] for p in part], timeout=600, env=ASAN_ENV, max_hangs=self.HANG_BUDGET - self.hangs)
             except common.Infra as e:
                 if "too many driver crashes" in str(e):
                     self.ctx.fail("driver:mass-crash", str(e)[-1500:], {"first_case": part[0][0]}); return
                 raise
             for (line, combo, meta), a in zip(part, res):
+                if isinstance(a, dict) and a.get("skipped"): self.skipped += 1; continue
                 if isinstance(a, dict) and combo is not None: self.crashes[combo] += 1
+                if isinstance(a, dict) and a["crash"][0] in ("fault-sig14", "timeout"): self.hangs += 1
                 handle(line, meta, a)
 
 # ---------------------------------------------------------------- formatting
